@@ -301,6 +301,19 @@ def eq_term(ctx, a, b):
         if len(c) != h.nbits // 4 or any(ch not in "0123456789abcdef" for ch in c):
             return False
         return h.term == z3.BitVecVal(int(c, 16), h.nbits)
+    if isinstance(a, SBytesBV) and isinstance(b, SBytesBV):
+        if a.nbytes != b.nbytes:
+            return False
+        return a.term == b.term
+    if isinstance(a, SBytesBV) and isinstance(b, (bytes, bytearray)) or isinstance(b, SBytesBV) and isinstance(a, (bytes, bytearray)):
+        h, c = (a, b) if isinstance(a, SBytesBV) else (b, a)
+        if len(c) != h.nbytes:
+            return False
+        return h.term == z3.BitVecVal(int.from_bytes(bytes(c), "big"), 8 * h.nbytes)
+    if isinstance(a, (SBytesBV, SHex)) and pytype_of(b) in (str, bytes, int, float, bool, type(None)) and \
+            pytype_of(b) is not a.pytype or isinstance(b, (SBytesBV, SHex)) and \
+            pytype_of(a) in (str, bytes, int, float, bool, type(None)) and pytype_of(a) is not b.pytype:
+        return False        # values of different builtin types never compare equal here (bytes vs str, digest vs None ...)
     if isinstance(a, (list, tuple)) and isinstance(b, (list, tuple)):
         if isinstance(a, list) != isinstance(b, list):
             return False
@@ -650,6 +663,31 @@ def num_binop(ctx, name, a, b):
                     t = t * x
                 return SInt(t)
             raise Unsupported("int ** symbolic")
+        cb = b if isinstance(b, int) and not isinstance(b, bool) else None
+        abv = a.bv if isinstance(a, SInt) else None
+        if name == "RShift" and cb is not None and 0 <= cb <= 4096:
+            # x >> n == floor(x / 2^n) for every Python int; on a value read from a bit-vector the result keeps its bits
+            if abv is not None:
+                w = abv.size()
+                if cb >= w:
+                    return 0
+                hi = z3.Extract(w - 1, cb, abv)
+                return SInt(z3.BV2Int(hi, False), bv=hi)
+            return SInt(x / z3.IntVal(2 ** cb))
+        if name == "LShift" and cb is not None and 0 <= cb <= 4096:
+            return SInt(x * z3.IntVal(2 ** cb))
+        if name == "BitAnd" and cb is not None and cb >= 0 and (cb & (cb + 1)) == 0:
+            # x & (2^m - 1) == x mod 2^m for every Python int (two's complement semantics of &)
+            m = cb.bit_length()
+            if m == 0:
+                return 0
+            if abv is not None:
+                lo = z3.Extract(min(m, abv.size()) - 1, 0, abv)
+                return SInt(z3.BV2Int(lo, False), bv=lo)
+            return SInt(x % z3.IntVal(2 ** m))
+        if name == "BitAnd" and isinstance(a, int) and not isinstance(a, bool) and a >= 0 and (a & (a + 1)) == 0 and \
+                isinstance(b, SInt):
+            return num_binop(ctx, name, b, a)
         raise Unsupported("int operator %s" % name)
     if k == "real":
         x, y = real_term(a), real_term(b)
